@@ -16,6 +16,17 @@ from amaranth import *
 from ..harness import Harness
 from ..engine import Query
 
+# FINDINGS
+#   2b14692 "fix: the host-chirp timeout is not overridden by a coinciding line-state edge"
+#       AWAIT_HOST_K/J: a K/J edge in the cycle timer == 2.5 ms overrode the timeout; caught by fallback_time
+#       (bmc_B_chirp / bmc_A_hs).
+#   a08325c "fix: only count a host chirp J that is still present at the 2.5 us mark"
+#       IN_HOST_J counted a pair although the J ended in the deciding cycle (K J J J reached HS); caught by hs_entry_pairs
+#       (bmc_A_hs).
+#   d409c88 "fix: do not start a high-speed handshake from the HS reset window when restricted"
+#       DETECT_HS_SUSPEND went to START_HS_DETECTION regardless of full/low_speed_only; caught by no_chirp_restricted
+#       (bmc_A_hsreset quick, bmc_A_deep thorough).
+
 PROP = "C19"
 ENCODED = ["luna/gateware/usb/usb2/reset.py: USBResetSequencer.elaborate (whole FSM, timer/line_state_time/valid_pairs, "
            "was_hs_pre_suspend) with scaled _CYCLES_* constants",
